@@ -1,1 +1,377 @@
-/- C04 — property theorems (stub: the slice is not built yet). -/
+import GB.C04.Frame
+/-
+  C04 — transcoded requests populate the gRPC message per the http.proto binding rules.
+
+  The theorems are about `GB.C04.transcode` (GB/C04/Model.lean), the executable model of
+  transcoding/http.go transcodeFunc + internal/gwquery, which `./check C04` ties to the real
+  StandardTranscoder by a differential run on schemas built at run time.
+  `transcode sch orc root bd dec rq`:  sch = the target's own descriptors, orc = results of the text
+  parsers that are parameters (float/double/Timestamp/Duration/Struct/Value), root = request message
+  type, bd = binding (body path), dec = what the body codec decoded (parameter, property C09),
+  rq = path parameters and query in the iteration order the Go runtime picked.
+-/
+open GB GB.C04
+
+/-! ## errors: InvalidArgument, or Internal only for a bad binding -/
+
+/-- Every failure of request transcoding is InvalidArgument — except Internal, which is returned only
+    when the binding's body path is not a field path of the request message (independent of the request),
+    and the wrapped io.EOF of a stream whose decoder reported end of input. (`fault` = the model was
+    given a schema with dangling type references or an incomplete oracle table; see `C04_no_fault_…`.) -/
+theorem C04_errors (sch : Schema) (orc : Oracle) (root : MsgDesc) (bd : Binding) (dec : Dec) (rq : Request) (e : Err)
+    (h : transcode sch orc root bd dec rq = .error e) :
+    e = .invalidArgument ∨ (e = .internal ∧ BadBinding sch root bd) ∨ (e = .eof ∧ dec = .eof) ∨ e = .fault := by
+  unfold transcode transcodeWith at h
+  split at h
+  · rename_i e' he
+    simp at h; subst h
+    exact bodyStage_err he
+  · split at h
+    · rename_i e' he
+      simp at h; subst h
+      rcases isParamErr_cases (pathStage_err he) with h1 | h1
+      · exact Or.inl h1
+      · exact Or.inr (Or.inr (Or.inr h1))
+    · split at h
+      · simp at h
+      · rcases isParamErr_cases (queryStage_err h) with h1 | h1
+        · exact Or.inl h1
+        · exact Or.inr (Or.inr (Or.inr h1))
+
+/-- A value that does not parse can only yield InvalidArgument: every error of the path-parameter and
+    query stages is InvalidArgument (or a model-input fault), never Internal. -/
+theorem C04_param_errors_invalidArgument (sch : Schema) (orc : Oracle) (root : MsgDesc) (m : Msg)
+    (fieldPath values : List Bytes) (e : Err)
+    (h : populateFieldValueFromPath sch orc root m fieldPath values = .error e) :
+    e = .invalidArgument ∨ e = .fault :=
+  isParamErr_cases (populate_err h)
+
+/-! ## streams: path and query bindings apply to every message -/
+
+/-- The stream transcoder (with its cached query filter) yields, for every message of the stream,
+    exactly what the unary transcoder yields for that message with the same path parameters and query. -/
+theorem C04_stream (sch : Schema) (orc : Oracle) (root : MsgDesc) (bd : Binding) (rq : Request) (decs : List Dec) :
+    streamTranscode sch orc root bd rq decs = decs.map (fun d => transcode sch orc root bd d rq) :=
+  streamFrom_eq decs none (Or.inl rfl)
+
+/-! ## body "*": the query string is not consulted -/
+
+theorem C04_body_star_ignores_query (sch : Schema) (orc : Oracle) (root : MsgDesc) (dec : Dec)
+    (pp : List (Bytes × Bytes)) (q q' : List (Bytes × List Bytes)) :
+    transcode sch orc root ⟨wildcard⟩ dec ⟨pp, q⟩ = transcode sch orc root ⟨wildcard⟩ dec ⟨pp, q'⟩ := by
+  unfold transcode transcodeWith
+  simp [shouldParseQuery]
+
+/-! ## query parameters of fields bound by the body or a path variable are ignored -/
+
+/-- Removing every query key whose (normalised) field path starts with the body path or with the name
+    of a path variable does not change the result — such keys are never applied. -/
+theorem C04_bound_query_ignored (sch : Schema) (orc : Oracle) (root : MsgDesc) (bd : Binding) (dec : Dec)
+    (pp : List (Bytes × Bytes)) (q : List (Bytes × List Bytes)) :
+    transcode sch orc root bd dec ⟨pp, q.filter (fun kv => !covered sch root (filterSeqs bd pp) kv)⟩
+      = transcode sch orc root bd dec ⟨pp, q⟩ := by
+  unfold transcode transcodeWith
+  simp only
+  split
+  · rfl
+  · split
+    · rfl
+    · split
+      · rfl
+      · exact queryStage_filter q _
+
+/-- what "covered" means: the body path or a path-variable name is a prefix of the key's field path -/
+theorem C04_covered_iff (sch : Schema) (root : MsgDesc) (bd : Binding) (pp : List (Bytes × Bytes)) (kv : Bytes × List Bytes) :
+    covered sch root (filterSeqs bd pp) kv = true ↔
+      ∃ s, (s ∈ (if bd.bodyPath.isEmpty then [] else [splitDot bd.bodyPath]) ∨ ∃ k v, (k, v) ∈ pp ∧ s = splitDot k)
+        ∧ s.isPrefixOf (normalizeFieldPath sch root (splitDot (queryKey kv.1 kv.2).1)) = true := by
+  unfold covered hasCommonPrefix filterSeqs
+  simp only [List.any_eq_true, List.mem_append, List.mem_map]
+  constructor
+  · rintro ⟨s, hs, hp⟩
+    refine ⟨s, ?_, hp⟩
+    rcases hs with hs | ⟨⟨k, v⟩, hkv, rfl⟩
+    · exact Or.inl hs
+    · exact Or.inr ⟨k, v, hkv, rfl⟩
+  · rintro ⟨s, hs, hp⟩
+    refine ⟨s, ?_, hp⟩
+    rcases hs with hs | ⟨k, v, hkv, rfl⟩
+    · exact Or.inl hs
+    · exact Or.inr ⟨(k, v), hkv, rfl⟩
+
+/-! ## the result depends on the target's own descriptors only -/
+
+/-- Enum text is resolved from the field's own enum descriptor: two schemas that agree on that enum
+    parse every text identically, whatever else they (or the process) contain. -/
+theorem C04_enum_by_own_descriptor (sch sch' : Schema) (orc orc' : Oracle) (ref : Name) (text : Bytes)
+    (h : sch.findEnum ref = sch'.findEnum ref) :
+    parseScalar sch orc (.enum ref) text = parseScalar sch' orc' (.enum ref) text := by
+  simp [parseScalar, h]
+
+/-- D4 (negative witness, the code before the fix): grpc-gateway's enum branch consults a process-global
+    registry; with the registry of the real bridge (no target types) EVERY enum text is rejected … -/
+theorem C04_gateway_enum_lookup_fails (ref : Name) (text : Bytes) :
+    parseEnumViaRegistry [] ref text = .error .invalidArgument := by
+  simp [parseEnumViaRegistry]
+
+/-- … whereas the target's descriptor accepts it (enum E { A = 0; B = 1 }, text "B" ↦ 1), and a registry
+    that holds a different enum under the same name changes the value: the result depended on what is linked in. -/
+theorem C04_gateway_enum_registry_dependence_fails :
+    parseScalar exEnumSchema exNoOracle (.enum [69]) [66] = .ok (.int 1)
+    ∧ parseEnumViaRegistry [exEnum] [69] [66] = .ok (.int 1)
+    ∧ ¬ (parseEnumViaRegistry [exDecoy] [69] [66] = parseScalar exEnumSchema exNoOracle (.enum [69]) [66]) := by
+  decide
+
+/-! ## non-vacuity -/
+
+/-- a concrete request: message M { int32 a = 1; string b = 2; }, body "*" decoded to {b: "x"},
+    path variable a=7, query b=y (ignored because the body is "*") ⟹ {a: 7, b: "x"} -/
+example :
+    transcode exSchema exNoOracle exRoot ⟨wildcard⟩ (.ok [([[98]], .single (.bytes [120]))]) ⟨[([97], [55])], [([98], [[121]])]⟩
+      = .ok [([[97]], .single (.int 7)), ([[98]], .single (.bytes [120]))] := by
+  decide
+
+/-- … and with an ill-typed path variable the same request is InvalidArgument -/
+example :
+    transcode exSchema exNoOracle exRoot ⟨wildcard⟩ .none ⟨[([97], [120])], []⟩ = .error .invalidArgument := by
+  decide
+
+/-- a bad binding (body path names no field) is Internal -/
+example :
+    transcode exSchema exNoOracle exRoot ⟨[122]⟩ .none ⟨[], []⟩ = .error .internal
+    ∧ BadBinding exSchema exRoot ⟨[122]⟩ := by
+  decide
+
+/-! ## the per-field rule (partial: fields outside oneofs, keys that do not overlap)
+
+  Full statement aimed at (DESIGN 5.4, `C04_refines`): for ALL schemas/bindings/requests the populated
+  leaves of `transcode …` are exactly those of `GB.C04.expect …` (GB/C04/Spec.lean): path variable, else
+  body, else unfiltered query parameter, else nothing.  `./check` tests exactly that equation on every
+  generated case.  Proved here: the three clauses of the rule as theorems about `transcode`, under the
+  side conditions `PathsAvoid` / `QueryAvoids` (every OTHER applied key names a field outside any oneof
+  whose path neither contains nor lies below the field in question).  Missing for the unrestricted
+  statement: keys that overlap each other (the result then depends on Go map iteration order), `Mutable`
+  clearing oneof siblings while walking a path, and list/map/message-typed leaves for the value clauses.
+-/
+
+/-- Clause 1 — a path variable wins: whatever the body decoded to and whatever earlier path variables
+    did, a path variable naming a singular scalar/enum field determines that field of the result. -/
+theorem C04_path_variable_wins_partial (sch : Schema) (orc : Oracle) (root : MsgDesc) (bd : Binding) (dec : Dec)
+    (pp1 pp2 : List (Bytes × Bytes)) (k t : Bytes) (q : List (Bytes × List Bytes)) (m : Msg)
+    (p : Path) (fs : List Field) (f : Field) (v : Val)
+    (hres : resolveGo sch false root (splitDot k) = some (p, fs)) (hlast : fs.getLast? = some f)
+    (hsingle : f.card = .single) (hscalar : ∀ r, f.kind ≠ .message r)
+    (hparse : parseScalar sch orc f.kind t = .ok v)
+    (hpp : PathsAvoid sch root p pp2)
+    (hq : QueryAvoids sch root (filterSeqs bd (pp1 ++ (k, t) :: pp2)) p q)
+    (h : transcode sch orc root bd dec ⟨pp1 ++ (k, t) :: pp2, q⟩ = .ok m) :
+    Msg.get m p = if !f.presence && v.isZero then none else some (.single v) := by
+  unfold transcode transcodeWith at h
+  simp only at h
+  split at h
+  · simp at h
+  · rename_i m0 _
+    split at h
+    · simp at h
+    · rename_i m1 h1
+      obtain ⟨ma, _, h3⟩ := pathStage_append h1
+      simp only [pathStage] at h3
+      split at h3
+      · simp at h3
+      · rename_i mb hb
+        have hv := populateGo_value (pre := []) hres hlast hsingle hscalar hparse (populate_ok hb)
+        have hf := pathStage_frame hpp h3
+        simp only [List.nil_append] at hv
+        split at h
+        · simp at h; subst h; rw [hf, hv]
+        · rw [queryStage_frame hq h, hf, hv]
+
+/-- Clause 2 — the body's value stays: a field that no path variable and no unfiltered query key
+    touches has exactly the value the body stage gave it (the decoded body, or nothing). -/
+theorem C04_body_kept_partial (sch : Schema) (orc : Oracle) (root : MsgDesc) (bd : Binding) (dec : Dec)
+    (rq : Request) (m0 m : Msg) (P : Path)
+    (hbody : bodyStage sch root bd dec = .ok m0)
+    (hpp : PathsAvoid sch root P rq.pathParams)
+    (hq : QueryAvoids sch root (filterSeqs bd rq.pathParams) P rq.query)
+    (h : transcode sch orc root bd dec rq = .ok m) :
+    Msg.get m P = Msg.get m0 P := by
+  unfold transcode transcodeWith at h
+  simp only [hbody] at h
+  split at h
+  · simp at h
+  · rename_i m1 h1
+    have hf := pathStage_frame hpp h1
+    split at h
+    · simp at h; subst h; exact hf
+    · rw [queryStage_frame hq h, hf]
+
+/-- Clause 3 — an unfiltered query parameter (body ≠ "*") naming a singular scalar/enum field, by proto or
+    JSON name, determines that field when no later key overlaps it. -/
+theorem C04_query_value_partial (sch : Schema) (orc : Oracle) (root : MsgDesc) (bd : Binding) (dec : Dec)
+    (pp : List (Bytes × Bytes)) (q1 q2 : List (Bytes × List Bytes)) (k t : Bytes) (m : Msg)
+    (p : Path) (fs : List Field) (f : Field) (v : Val)
+    (hstar : bd.bodyPath ≠ wildcard)
+    (hnc : covered sch root (filterSeqs bd pp) (k, [t]) = false)
+    (hmk : splitMapKey k = none)
+    (hres : resolveGo sch false root (normalizeFieldPath sch root (splitDot k)) = some (p, fs))
+    (hlast : fs.getLast? = some f) (hsingle : f.card = .single) (hscalar : ∀ r, f.kind ≠ .message r)
+    (hparse : parseScalar sch orc f.kind t = .ok v)
+    (hq : QueryAvoids sch root (filterSeqs bd pp) p q2)
+    (h : transcode sch orc root bd dec ⟨pp, q1 ++ (k, [t]) :: q2⟩ = .ok m) :
+    Msg.get m p = if !f.presence && v.isZero then none else some (.single v) := by
+  unfold transcode transcodeWith at h
+  simp only at h
+  split at h
+  · simp at h
+  · split at h
+    · simp at h
+    · have hs : shouldParseQuery bd = true := by simp [shouldParseQuery, hstar]
+      simp only [hs, Bool.not_true, Bool.false_eq_true, if_false] at h
+      obtain ⟨ma, _, h3⟩ := queryStage_append h
+      simp only [queryStage] at h3
+      split at h3
+      · simp at h3
+      · rename_i mb hb
+        rw [queryStage_frame hq h3]
+        exact queryOne_value hnc hmk hres hlast hsingle hscalar hparse hb
+
+/-- the side conditions are satisfiable and the clauses say something: message M { int32 a = 1; string b = 2; },
+    body "*" decoded to {a: 1, b: "x"}, path variable a=7 ⟹ a = 7 (clause 1) and b = "x" (clause 2). -/
+example :
+    ∃ m, transcode exSchema exNoOracle exRoot ⟨wildcard⟩ (.ok [([[97]], .single (.int 1)), ([[98]], .single (.bytes [120]))]) ⟨[([97], [55])], []⟩ = .ok m
+      ∧ Msg.get m [[97]] = some (.single (.int 7)) ∧ Msg.get m [[98]] = some (.single (.bytes [120])) := by
+  refine ⟨_, rfl, ?_, ?_⟩ <;> decide
+
+example : PathsAvoid exSchema exRoot [[98]] [([97], [55])] := by
+  intro kv hkv
+  simp at hkv
+  subst hkv
+  exact ⟨[[97]], [exFa], by decide, by decide, by decide⟩
+
+/-- KNOWN FINDING D4c (negative witness). "Path variables are written over the body" fails for a proto3
+    `optional` field that the body also sets: message M { optional int32 a = 1; string b = 2; }, body "*"
+    decoded to {a: 1, b: "x"}, path variable a=7. The specification expects {b: "x", a: 7}; the code (and
+    the model) answer InvalidArgument ("field already set for oneof _a"), although the same request on the
+    implicit-presence field `int32 a = 1` is accepted with a = 7. `C04_path_variable_wins_partial` is the
+    statement that does hold (it speaks about successful transcodings). -/
+theorem C04_path_variable_over_body_optional_fails :
+    transcode exSchemaOpt exNoOracle exRootOpt ⟨wildcard⟩ exBodyAB ⟨[([97], [55])], []⟩ = .error .invalidArgument
+    ∧ expect exSchemaOpt exNoOracle exRootOpt ⟨wildcard⟩ exBodyAB ⟨[([97], [55])], []⟩
+        = some (.ok [([[98]], .single (.bytes [120])), ([[97]], .single (.int 7))])
+    ∧ transcode exSchema exNoOracle exRoot ⟨wildcard⟩ exBodyAB ⟨[([97], [55])], []⟩
+        = .ok [([[97]], .single (.int 7)), ([[98]], .single (.bytes [120]))] := by
+  decide
+
+/-! ## text forms -/
+
+/-- integers: accepted text is an optional sign followed by decimal digits only, and the value is within
+    the field's range (no wrap-around, no clamping) -/
+theorem C04_int_text (s : Bytes) (bits : Nat) (i : Int) (h : parseInt s bits = some i) :
+    -((2 ^ (bits - 1) : Nat) : Int) ≤ i ∧ i < ((2 ^ (bits - 1) : Nat) : Int)
+    ∧ ∃ c rest, s = c :: rest ∧ (if c == 43 || c == 45 then rest else s).all isDigit = true := by
+  cases s with
+  | nil => simp [parseInt] at h
+  | cons c rest =>
+    rw [parseInt_cons] at h
+    have hCpos : 0 < 2 ^ (bits - 1) := Nat.pow_pos (by decide)
+    generalize 2 ^ (bits - 1) = C at h hCpos ⊢
+    cases hd : parseDigits (if c == 43 || c == 45 then rest else c :: rest) with
+    | none => simp only [hd] at h; simp at h
+    | some n =>
+      simp only [hd] at h
+      refine ⟨?_, ?_, c, rest, rfl, (parseDigits_some hd).2⟩
+      · cases hb : (c == 45) <;> simp only [hb] at h
+        · by_cases hge : n ≥ C <;> simp [hge] at h <;> omega
+        · by_cases hgt : n > C <;> simp [hgt] at h <;> omega
+      · cases hb : (c == 45) <;> simp only [hb] at h
+        · by_cases hge : n ≥ C <;> simp [hge] at h <;> omega
+        · by_cases hgt : n > C <;> simp [hgt] at h <;> omega
+
+theorem C04_uint_text (s : Bytes) (bits n : Nat) (h : parseUint s bits = some n) :
+    n < 2 ^ bits ∧ s ≠ [] ∧ s.all isDigit = true := by
+  unfold parseUint at h
+  cases hd : parseDigits s with
+  | none => simp [hd] at h
+  | some n' =>
+    simp only [hd] at h
+    by_cases hlt : n' < 2 ^ bits
+    · simp [hlt] at h; subst h
+      exact ⟨hlt, parseDigits_some hd⟩
+    · simp [hlt] at h
+
+/-- enums: an accepted text denotes a value of the field's own enum — its name, or the decimal number of
+    one of its values (read as Go `int` and converted to int32 like the code does) -/
+theorem C04_enum_text (sch : Schema) (orc : Oracle) (ref : Name) (text : Bytes) (n : Int)
+    (h : parseScalar sch orc (.enum ref) text = .ok (.int n)) :
+    ∃ e, sch.findEnum ref = some e ∧
+      ((text, n) ∈ e.values ∨ (∃ i name, parseInt text 64 = some i ∧ n = wrapInt32 i ∧ (name, n) ∈ e.values)) := by
+  simp only [parseScalar] at h
+  split at h
+  · simp at h
+  · rename_i e he
+    refine ⟨e, he, ?_⟩
+    split at h
+    · rename_i nv hnv
+      simp at h
+      have hm := List.mem_of_find?_eq_some hnv
+      have hp := List.find?_some hnv
+      simp at hp
+      left
+      rw [← hp, ← h]
+      exact hm
+    · split at h
+      · simp at h
+      · rename_i i hi
+        try simp only at h
+        split at h
+        · rename_i hany
+          simp at h
+          simp only [List.any_eq_true, beq_iff_eq] at hany
+          obtain ⟨⟨name, num⟩, hmem, hnum⟩ := hany
+          right
+          refine ⟨i, name, hi, h.symm, ?_⟩
+          simp at hnum
+          rw [← h, ← hnum]
+          exact hmem
+        · simp at h
+
+/-- bool: exactly the twelve spellings of strconv.ParseBool -/
+theorem C04_bool_text (s : Bytes) (b : Bool) (h : parseBool s = some b) :
+    s ∈ ([[49], [116], [84], [84, 82, 85, 69], [116, 114, 117, 101], [84, 114, 117, 101],
+          [48], [102], [70], [70, 65, 76, 83, 69], [102, 97, 108, 115, 101], [70, 97, 108, 115, 101]] : List Bytes) := by
+  by_cases h1 : s = [49]
+  · simp [h1]
+  by_cases h2 : s = [116]
+  · simp [h2]
+  by_cases h3 : s = [84]
+  · simp [h3]
+  by_cases h4 : s = [84, 82, 85, 69]
+  · simp [h4]
+  by_cases h5 : s = [116, 114, 117, 101]
+  · simp [h5]
+  by_cases h6 : s = [84, 114, 117, 101]
+  · simp [h6]
+  by_cases h7 : s = [48]
+  · simp [h7]
+  by_cases h8 : s = [102]
+  · simp [h8]
+  by_cases h9 : s = [70]
+  · simp [h9]
+  by_cases h10 : s = [70, 65, 76, 83, 69]
+  · simp [h10]
+  by_cases h11 : s = [102, 97, 108, 115, 101]
+  · simp [h11]
+  by_cases h12 : s = [70, 97, 108, 115, 101]
+  · simp [h12]
+  exfalso
+  simp [parseBool, h1, h2, h3, h4, h5, h6, h7, h8, h9, h10, h11, h12] at h
+
+/-- base64 witnesses: both alphabets, padding required, newlines ignored, trailing bits not checked -/
+example : parseBytes [65, 81, 73, 68] = some [1, 2, 3]                       -- "AQID"
+    ∧ parseBytes [45, 95, 56, 61] = some [251, 255]                           -- "-_8=" (URL alphabet)
+    ∧ parseBytes [43, 47, 56, 61] = some [251, 255]                           -- "+/8=" (standard alphabet)
+    ∧ parseBytes [65, 81, 10, 61, 61] = some [1]                              -- "AQ\n=="
+    ∧ parseBytes [65, 81] = none                                              -- "AQ" (padding missing)
+    ∧ parseBytes [65, 82, 61, 61] = some [1]                                  -- "AR==" (non-zero trailing bits)
+    ∧ parseBytes [] = some [] := by
+  decide
